@@ -7,15 +7,6 @@ From Coq.Strings Require Import Byte.
 From Verif Require Import Base.Bytes Gen.FileManager Gen.Determinism.
 Import ListNotations.
 
-Definition bleb (a b : byte) : bool := (Byte.to_N a <=? Byte.to_N b)%N.
-
-Fixpoint lex_leb (x y : bytes) : bool :=
-  match x, y with
-  | [], _ => true
-  | _ :: _, [] => false
-  | a :: x', b :: y' => if Byte.eqb a b then lex_leb x' y' else bleb a b
-  end.
-
 Lemma byte_eqb_refl a : Byte.eqb a a = true.
 Proof. apply byte_eqb_eq. reflexivity. Qed.
 
